@@ -89,11 +89,13 @@ func checkC09(c c09Case) (Outcome, error) {
 	if sample > 2500 {
 		limit = 40 * time.Minute
 	}
-	res := callWatched(fn, limit)
+	res := callWatchedProbe(fn, limit, func() bool { return r.FailedReads() > 1000000 })
 	what := fmt.Sprintf("%s with source failing (%s) at byte %d of %d", name, c.Kind, c.Offset, total)
 	switch {
 	case res.Hung:
 		return out, violation("hang", "%s: never returns - every library goroutine is parked and nothing can wake them:\n%s", what, clip(res.Dump, 2500))
+	case res.Spinning:
+		return out, violation("livelock", "%s: does not return - it has retried the failing source more than 10^6 times and is still reading", what)
 	case res.Slow:
 		return Outcome{Skip: "INCONCLUSIVE wall-clock guard"}, nil
 	case res.Panic != nil:
